@@ -5,6 +5,7 @@ from .. import thir
 from ..cfg import CFG, call_sites
 from ..origin import origins, VALUE_CALLS
 from ..report import Skip
+from ..facts import strip_generics
 
 PT = "project_origins::ProjectType"
 
@@ -100,6 +101,16 @@ def run(ctx):
         pass
 
     # ---- R20.2
+    # the listing is complete: nothing cuts the directory stream short or skips entries by position
+    try:
+        ob = ctx.anchor_fn("R20.3", "project_origins::DirList::obtain")
+        cut = sorted({strip_generics(t.callee.def_ or "").split("::")[-1] for g_ in [ob] + ctx.facts.descendants(ob) for _, t in g_.calls()
+                      if strip_generics(t.callee.def_ or "").split("::")[-1] in ("take", "take_while", "take_until", "skip", "skip_while", "step_by", "nth", "chunks", "chunks_timeout", "timeout", "filter", "peekable", "next", "try_next")})
+        ctx.require(not cut, "R20.3", "listing-complete", "DirList::obtain keeps every entry of the directory (no take / skip / early stop on the stream)", ob.loc(ob.line), detail=str(cut),
+                    fail="DirList::obtain cuts the directory listing short (%s): a marker that the directory stream yields late is not seen, so types() and origins() miss it in large directories" % cut)
+    except Skip:
+        pass
+
     try:
         types_fn = ctx.anchor_one("R20.2", "coroutine body of project_origins::types",
                                   [f for f in facts.fns_matching(r"^project_origins::types::\{closure#\d+\}$")
